@@ -27,24 +27,32 @@ import (
 // uses it); contents and the live iterator are compared with the sorted map.
 
 var tKeys = []string{"a", "b", "c", "d"}
+var tKeyBytes = [][]byte{[]byte("a"), []byte("b"), []byte("c"), []byte("d")}
 
-type kvmap map[string][]byte
+// kvmap is the sorted-map model over the 4-key universe: index = key, nil = absent
+// (present values are non-nil, possibly empty).
+type kvmap [4][]byte
 
-func (m kvmap) clone() kvmap {
-	n := kvmap{}
-	for k, v := range m {
-		n[k] = v
+func kidx(k string) int { return int(k[0] - 'a') }
+
+func (m *kvmap) sorted() []string {
+	var out []string
+	for i, v := range m {
+		if v != nil {
+			out = append(out, tKeys[i])
+		}
 	}
-	return n
+	return out
 }
 
-func (m kvmap) sorted() []string {
-	out := make([]string, 0, len(m))
-	for k := range m {
-		out = append(out, k)
+func (m *kvmap) count() int {
+	n := 0
+	for _, v := range m {
+		if v != nil {
+			n++
+		}
 	}
-	sort.Strings(out)
-	return out
+	return n
 }
 
 type treapLike interface {
@@ -55,34 +63,33 @@ type treapLike interface {
 	Iterator(start, limit []byte) *ffldb.VerifTreapIterator
 }
 
-var contentProbes = [][]byte{[]byte("a"), []byte("b"), []byte("c"), []byte("d"), []byte("bb")}
+var probeBB = []byte("bb")
 
-// checkContents compares a treap with the model map (model keys are a subset of
-// tKeys, so the sorted key list is tKeys filtered by presence).
-func checkContents(t treapLike, m kvmap) string {
-	if t.Len() != len(m) {
-		return fmt.Sprintf("Len()=%d, model %d", t.Len(), len(m))
+// checkContents compares a treap with the model.
+func checkContents(t treapLike, m *kvmap) string {
+	if t.Len() != m.count() {
+		return fmt.Sprintf("Len()=%d, model %d", t.Len(), m.count())
 	}
-	for _, k := range contentProbes {
-		v, ok := m[string(k)]
-		if t.Has(k) != ok {
-			return fmt.Sprintf("Has(%q)=%v, model %v", k, !ok, ok)
+	for i, k := range tKeyBytes {
+		v := m[i]
+		if t.Has(k) != (v != nil) {
+			return fmt.Sprintf("Has(%q)=%v, model %v", k, v == nil, v != nil)
 		}
 		g := t.Get(k)
-		if ok != (g != nil) || !bytes.Equal(g, v) {
+		if (v != nil) != (g != nil) || !bytes.Equal(g, v) {
 			return fmt.Sprintf("Get(%q)=%s, model %s", k, hx(g), hx(v))
 		}
 	}
+	if t.Has(probeBB) || t.Get(probeBB) != nil {
+		return "Has/Get of a key that was never stored is not false/nil"
+	}
 	i, bad := 0, ""
 	t.ForEach(func(k, v []byte) bool {
-		for i < len(tKeys) {
-			if _, ok := m[tKeys[i]]; ok {
-				break
-			}
+		for i < 4 && m[i] == nil {
 			i++
 		}
-		if i >= len(tKeys) || string(k) != tKeys[i] || !bytes.Equal(v, m[tKeys[i]]) {
-			bad = fmt.Sprintf("ForEach visits %q=%q out of order / not in the model %v", k, v, m.sorted())
+		if i >= 4 || !bytes.Equal(k, tKeyBytes[i]) || !bytes.Equal(v, m[i]) {
+			bad = fmt.Sprintf("ForEach visits %q=%q out of order / not in the model keys %v", k, v, m.sorted())
 			return false
 		}
 		i++
@@ -91,8 +98,8 @@ func checkContents(t treapLike, m kvmap) string {
 	if bad != "" {
 		return bad
 	}
-	for ; i < len(tKeys); i++ {
-		if _, ok := m[tKeys[i]]; ok {
+	for ; i < 4; i++ {
+		if m[i] != nil {
 			return fmt.Sprintf("ForEach misses %q, model keys %v", tKeys[i], m.sorted())
 		}
 	}
@@ -105,7 +112,7 @@ var iterProbes = []string{"a", "aa", "b", "bb", "c", "cc", "d", "dd"}
 var treapRanges = [][2]string{{"", ""}, {"b", "d"}, {"aa", "cc"}}
 
 // checkIter walks iterators over several ranges against the sorted model.
-func checkIter(t treapLike, m kvmap) string {
+func checkIter(t treapLike, m *kvmap) string {
 	for _, rg := range treapRanges {
 		var start, limit []byte
 		if rg[0] != "" {
@@ -114,50 +121,60 @@ func checkIter(t treapLike, m kvmap) string {
 		if rg[1] != "" {
 			limit = []byte(rg[1])
 		}
-		var in []string
-		for _, k := range m.sorted() {
-			if (start == nil || k >= rg[0]) && (limit == nil || k < rg[1]) {
+		var inArr [4]string
+		in := inArr[:0]
+		for i, k := range tKeys {
+			if m[i] != nil && (start == nil || k >= rg[0]) && (limit == nil || k < rg[1]) {
 				in = append(in, k)
 			}
 		}
-		name := fmt.Sprintf("Iterator[%q,%q)", rg[0], rg[1])
+		name := func() string { return fmt.Sprintf("Iterator[%q,%q)", rg[0], rg[1]) }
 		// forward via Next from new, backward via Prev from new
 		it := t.Iterator(start, limit)
 		if it.Valid() || it.Key() != nil {
-			return name + ": new iterator is valid"
+			return name() + ": new iterator is valid"
 		}
 		n := 0
 		for it.Next() {
 			if n >= len(in) || string(it.Key()) != in[n] {
-				return fmt.Sprintf("%s: forward walk reaches %q at position %d, model %v", name, it.Key(), n, in)
+				return fmt.Sprintf("%s: forward walk reaches %q at position %d, model %v", name(), it.Key(), n, in)
 			}
-			if !bytes.Equal(it.Value(), m[in[n]]) {
-				return fmt.Sprintf("%s: value at %q = %s, model %s", name, it.Key(), hx(it.Value()), hx(m[in[n]]))
+			if !bytes.Equal(it.Value(), m[kidx(in[n])]) {
+				return fmt.Sprintf("%s: value at %q = %s, model %s", name(), it.Key(), hx(it.Value()), hx(m[kidx(in[n])]))
 			}
 			n++
 		}
 		if n != len(in) {
-			return fmt.Sprintf("%s: forward walk ends after %d keys, model %v", name, n, in)
+			return fmt.Sprintf("%s: forward walk ends after %d keys, model %v", name(), n, in)
 		}
 		if it.Next() || it.Valid() {
-			return name + ": Next after exhaustion is not false"
+			return name() + ": Next after exhaustion is not false"
 		}
-		it2 := t.Iterator(start, limit)
+		// backward: Prev from a NEW iterator on the unbounded range, Last()+Prev on
+		// the bounded ones (saves iterator allocations, which dominate the cost)
+		it2 := it
 		n = len(in)
-		for it2.Prev() {
+		more := false
+		if start == nil && limit == nil {
+			it2 = t.Iterator(start, limit)
+			more = it2.Prev()
+		} else {
+			more = it2.Last()
+		}
+		for ; more; more = it2.Prev() {
 			n--
 			if n < 0 || string(it2.Key()) != in[n] {
-				return fmt.Sprintf("%s: backward walk reaches %q, model %v", name, it2.Key(), in)
+				return fmt.Sprintf("%s: backward walk reaches %q, model %v", name(), it2.Key(), in)
 			}
 		}
 		if n != 0 {
-			return fmt.Sprintf("%s: backward walk stops early (%d left), model %v", name, n, in)
+			return fmt.Sprintf("%s: backward walk stops early (%d left), model %v", name(), n, in)
 		}
 		if it.First() != (len(in) > 0) || (len(in) > 0 && string(it.Key()) != in[0]) {
-			return fmt.Sprintf("%s: First() at %q, model %v", name, it.Key(), in)
+			return fmt.Sprintf("%s: First() at %q, model %v", name(), it.Key(), in)
 		}
 		if it.Last() != (len(in) > 0) || (len(in) > 0 && string(it.Key()) != in[len(in)-1]) {
-			return fmt.Sprintf("%s: Last() at %q, model %v", name, it.Key(), in)
+			return fmt.Sprintf("%s: Last() at %q, model %v", name(), it.Key(), in)
 		}
 		// Seek to every probe inside the range, then one step in either direction
 		// and back again (direction change); the iterator object is reused.
@@ -166,10 +183,11 @@ func checkIter(t treapLike, m kvmap) string {
 				continue
 			}
 			idx := sort.SearchStrings(in, p)
+			pb := []byte(p)
 			for dir := 0; dir < 3; dir++ {
-				ok := it.Seek([]byte(p))
+				ok := it.Seek(pb)
 				if ok != (idx < len(in)) || (ok && string(it.Key()) != in[idx]) {
-					return fmt.Sprintf("%s: Seek(%q) -> %v %q, model %v idx %d", name, p, ok, it.Key(), in, idx)
+					return fmt.Sprintf("%s: Seek(%q) -> %v %q, model %v idx %d", name(), p, ok, it.Key(), in, idx)
 				}
 				if !ok {
 					break
@@ -178,21 +196,21 @@ func checkIter(t treapLike, m kvmap) string {
 				case 1:
 					ok = it.Next()
 					if ok != (idx+1 < len(in)) || (ok && string(it.Key()) != in[idx+1]) {
-						return fmt.Sprintf("%s: Seek(%q),Next -> %v %q, model %v", name, p, ok, it.Key(), in)
+						return fmt.Sprintf("%s: Seek(%q),Next -> %v %q, model %v", name(), p, ok, it.Key(), in)
 					}
 					if ok {
 						if !it.Prev() || string(it.Key()) != in[idx] {
-							return fmt.Sprintf("%s: Seek(%q),Next,Prev -> %q, model %q", name, p, it.Key(), in[idx])
+							return fmt.Sprintf("%s: Seek(%q),Next,Prev -> %q, model %q", name(), p, it.Key(), in[idx])
 						}
 					}
 				case 2:
 					ok = it.Prev()
 					if ok != (idx > 0) || (ok && string(it.Key()) != in[idx-1]) {
-						return fmt.Sprintf("%s: Seek(%q),Prev -> %v %q, model %v", name, p, ok, it.Key(), in)
+						return fmt.Sprintf("%s: Seek(%q),Prev -> %v %q, model %v", name(), p, ok, it.Key(), in)
 					}
 					if ok {
 						if !it.Next() || string(it.Key()) != in[idx] {
-							return fmt.Sprintf("%s: Seek(%q),Prev,Next -> %q, model %q", name, p, it.Key(), in[idx])
+							return fmt.Sprintf("%s: Seek(%q),Prev,Next -> %q, model %q", name(), p, it.Key(), in[idx])
 						}
 					}
 				}
@@ -220,53 +238,62 @@ type immVersion struct {
 }
 
 // runImmutable executes one op sequence from scratch; returns a violation text.
+// Every version produced on the way is a snapshot; at the end of the sequence
+// ALL versions must hold exactly the contents they had when they were created
+// (the enumeration runs every length separately, so "the end" covers every
+// point in time), and the final version is walked with iterators.
 func runImmutable(seq []string) string {
-	vers := []immVersion{{ffldb.VerifNewTreapImmutable(), kvmap{}}}
+	var versArr [9]immVersion
+	vers := versArr[:1]
+	vers[0].t = ffldb.VerifNewTreapImmutable()
 	for i, op := range seq {
-		cur := vers[len(vers)-1]
-		m := cur.m.clone()
+		cur := &vers[len(vers)-1]
+		m := cur.m
 		var nt *ffldb.VerifTreapImmutable
-		val := func(j int) []byte { return immVals[i][j] }
-		f := strings.SplitN(op, ":", 2)
-		switch f[0] {
-		case "P":
-			nt = cur.t.Put(ffldb.VerifTreapKVPair{Key: []byte(f[1]), Value: val(0)})
-			m[f[1]] = val(0)
-		case "D":
-			nt = cur.t.Delete([]byte(f[1]))
-			delete(m, f[1])
-		case "PM":
-			var kvs []ffldb.VerifTreapKVPair
-			for j, k := range strings.Split(f[1], ",") {
-				kvs = append(kvs, ffldb.VerifTreapKVPair{Key: []byte(k), Value: val(j)})
-				m[k] = val(j)
+		switch op[0] {
+		case 'P':
+			if op[1] == ':' {
+				k := kidx(op[2:])
+				nt = cur.t.Put(ffldb.VerifTreapKVPair{Key: tKeyBytes[k], Value: immVals[i][0]})
+				m[k] = immVals[i][0]
+			} else {
+				var kvs []ffldb.VerifTreapKVPair
+				for j, ks := range strings.Split(op[3:], ",") {
+					k := kidx(ks)
+					kvs = append(kvs, ffldb.VerifTreapKVPair{Key: tKeyBytes[k], Value: immVals[i][j]})
+					m[k] = immVals[i][j]
+				}
+				nt = cur.t.Put(kvs...)
 			}
-			nt = cur.t.Put(kvs...)
+		case 'D':
+			k := kidx(op[2:])
+			nt = cur.t.Delete(tKeyBytes[k])
+			m[k] = nil
 		}
 		vers = append(vers, immVersion{nt, m})
-		for vi, v := range vers {
-			if w := checkContents(v.t, v.m); w != "" {
-				if vi == len(vers)-1 {
-					return fmt.Sprintf("after op %d (%s) the new version is wrong: %s", i, op, w)
-				}
-				return fmt.Sprintf("after op %d (%s) the EARLIER version %d (snapshot) changed: %s", i, op, vi, w)
+	}
+	for vi := range vers {
+		if w := checkContents(vers[vi].t, &vers[vi].m); w != "" {
+			if vi == len(vers)-1 {
+				return fmt.Sprintf("after ops %v the newest version is wrong: %s", seq, w)
 			}
+			return fmt.Sprintf("after ops %v the EARLIER version %d (snapshot taken after %d ops) changed: %s", seq, vi, vi, w)
 		}
-		if i == len(seq)-1 {
-			if w := checkIter(nt, m); w != "" {
-				return fmt.Sprintf("after op %d (%s): %s", i, op, w)
-			}
-		}
+	}
+	last := &vers[len(vers)-1]
+	if w := checkIter(last.t, &last.m); w != "" {
+		return fmt.Sprintf("after ops %v: %s", seq, w)
 	}
 	return ""
 }
 
 var mutAlphabet = []string{"P:a", "P:b", "P:c", "P:d", "D:a", "D:b", "D:c", "D:d", "IS:b", "IF", "IN", "IP"}
 
-// runMutable executes one op sequence on a Mutable treap with one live iterator.
+// runMutable executes one op sequence on a Mutable treap with one live iterator
+// (ForceReseek after every mutation, which is how ffldb's transaction uses it).
 func runMutable(seq []string) string {
 	t := ffldb.VerifNewTreapMutable()
-	m := kvmap{}
+	var m kvmap
 	it := t.Iterator(nil, nil)
 	// model of the live iterator: positioned at key pos (which may since have been
 	// deleted), or exhausted/new.
@@ -276,12 +303,12 @@ func runMutable(seq []string) string {
 		val := immVals[i][1]
 		switch f[0] {
 		case "P":
-			t.Put([]byte(f[1]), val)
-			m[f[1]] = val
+			t.Put(tKeyBytes[kidx(f[1])], val)
+			m[kidx(f[1])] = val
 			it.ForceReseek()
 		case "D":
-			t.Delete([]byte(f[1]))
-			delete(m, f[1])
+			t.Delete(tKeyBytes[kidx(f[1])])
+			m[kidx(f[1])] = nil
 			it.ForceReseek()
 		case "IS", "IF":
 			keys := m.sorted()
@@ -338,18 +365,18 @@ func runMutable(seq []string) string {
 			}
 			if ok {
 				state, pos = "at", want
-				if !bytes.Equal(it.Value(), m[want]) {
-					return fmt.Sprintf("op %d (%s): live iterator value at %q = %s, model %s", i, op, want, hx(it.Value()), hx(m[want]))
+				if !bytes.Equal(it.Value(), m[kidx(want)]) {
+					return fmt.Sprintf("op %d (%s): live iterator value at %q = %s, model %s", i, op, want, hx(it.Value()), hx(m[kidx(want)]))
 				}
 			} else {
 				state = "end"
 			}
 		}
-		if w := checkContents(t, m); w != "" {
-			return fmt.Sprintf("after op %d (%s): %s", i, op, w)
-		}
 	}
-	if w := checkIter(t, m); w != "" {
+	if w := checkContents(t, &m); w != "" {
+		return fmt.Sprintf("after ops %v: %s", seq, w)
+	}
+	if w := checkIter(t, &m); w != "" {
 		return "at the end: " + w
 	}
 	return ""
@@ -398,7 +425,7 @@ func partTreap(r *ev.Run, viols *violSet) {
 	nMut := r.Pick(5, 6)
 	workers := runtime.NumCPU()
 	run := func(kind string, alphabet []string, depth int, f func([]string) string) {
-		n, complete := enumSeqs(alphabet, depth, workers, r.Expired, func(seq []string) {
+		n, complete := enumSeqs(alphabet, depth, workers, func() bool { return expired(r) }, func(seq []string) {
 			if w := f(seq); w != "" {
 				// shortest failing prefix
 				s := append([]string{}, seq...)
